@@ -7,10 +7,12 @@ spec/traverse/SlotTime.tla (+ SlotTimeBig.tla: the same statements over BigNat)
        from the same fields (design-model comparison: a mismatch is DRIFT, the property only speaks of the
        well-known networks)
   M3 : the four well-known networks, slots sampled densely around every boundary up to 2^40; each public call
-       logged with BigNat values and validated by TraceSlotTime (verdict: Strict = FALSE; design: Strict = TRUE)
+       logged with BigNat values and consumed by TraceSlotTime in ONE TLC run: conforming calls by the conforming
+       branch, calls that break C32 by the classifying branch, which records the class kind/network/era
 """
 import json
 import os
+import re
 import vlib
 
 SPEC_DIR = "traverse"
@@ -49,36 +51,22 @@ def to_big(v):
     return {"neg": False, "mag": mag}
 
 
-def validate(ctx, cfg, events, tag, max_rounds):
-    """Validate `events`; every rejected event is recorded with its key and removed, and validation resumes after
-    it (the accepted prefix is dropped, the current "net" event kept).  Returns (rejected, surviving events)."""
-    rejected = []
-    dropped = set()
-    rounds = 0
-    cur = list(enumerate(events))
-    while True:
-        p = ctx.path("%s_%d.ndjson" % (tag, rounds))
-        vlib.write_ndjson(p, [e for _, e in cur])
-        ok, matched, total, first = ctx.tlc_trace(SPEC_DIR, "TraceSlotTime", cfg, p, count=(rounds == 0))
-        if ok:
-            break
-        net = None
-        for _, e in cur[:matched + 1]:
-            if e["ev"] == "net":
-                net = e
-            elif e["ev"] == "reset":
-                net = None
-        rejected.append((classify(first, net), first, net))
-        dropped.add(cur[matched][0])
-        rounds += 1
-        rest = cur[matched + 1:]
-        if first["ev"] == "rel" and rest and rest[0][1]["ev"] == "abs":
-            dropped.add(rest[0][0])      # the paired call back has lost its "rel"
-            rest = rest[1:]
-        cur = ([(-1, net)] if net and first["ev"] != "net" else []) + rest
-        if rounds >= max_rounds or not rest:
-            break
-    return rejected, [e for i, e in enumerate(events) if i not in dropped]
+def validate(ctx, events, name):
+    """One TLC run over the whole trace.  TraceSlotTime consumes every event: conforming calls through the
+    conforming branch, calls that break C32 through the classifying branch, which prints `CLASS|key|index` the first
+    time a class is seen (and `DRIFT|..` for design-model deviations, `COUNTS|json` at every reset).
+    Returns (accepted, matched, first_unmatched, classes {key: first index}, drift {key: index}, counts)."""
+    p = ctx.path(name)
+    vlib.write_ndjson(p, events)
+    ok, matched, total, first = ctx.tlc_trace(SPEC_DIR, "TraceSlotTime", "TraceSlotTime.cfg", p, count=(name == "trace.ndjson"))
+    out = open(ctx.path("tlc_tr_TraceSlotTime_%s.out" % name.replace(".", "_"))).read()
+    classes, drift, counts = {}, {}, {}
+    for m in re.finditer(r'^"(CLASS|DRIFT)\|([^|"]+)\|(\d+)"$', out, re.M):
+        (classes if m.group(1) == "CLASS" else drift).setdefault(m.group(2), int(m.group(3)))
+    for m in re.finditer(r'^"COUNTS\|(.*)"$', out, re.M):
+        c = json.loads(json.loads('"%s"' % m.group(1)))
+        counts = c if isinstance(c, dict) else {}
+    return ok, matched, first, classes, drift, counts
 
 
 def run(ctx):
@@ -128,44 +116,49 @@ def run(ctx):
     nets = [e["name"] for e in events if e["ev"] == "net"]
     if sorted(nets) != ["mainnet", "preprod", "preview", "testnet"]:
         raise vlib.ToolError("trace does not cover the four networks: %s" % nets)
-    rejected, clean = validate(ctx, "TraceSlotTime.cfg", events, "verdict", 8)
+    ok, matched, first, classes, drift, counts = validate(ctx, events, "trace.ndjson")
     ctx.cov["traces_validated_against_impl"] += len(nets)
     ctx.cov["evaluations"] += len(events)
     ctx.cov["m3_events"] = len(events)
-    ctx.cov["m3_events_rejected"] = len(rejected)
+    ctx.cov["m3_nonconforming_calls_by_class"] = counts
     ctx.sample({"impl_trace_events": events[0:1] + events[300:303]})
-    for key, ev, net in rejected:
-        ctx.report(key, "call not allowed by SlotTime on network %s: %s" % (net["name"] if net else "?", json.dumps(ev)),
-                   payload={"event": ev, "net": net})
+    if set(classes) != set(counts):
+        raise vlib.ToolError("class bookkeeping of the trace spec is inconsistent: %s vs %s" % (sorted(classes), sorted(counts)))
+    for key, idx in sorted(classes.items(), key=lambda kv: kv[1]):
+        ev = events[idx - 1]
+        net = next(e for e in reversed(events[:idx]) if e["ev"] == "net") if key.split("/")[0] != "panic" else None
+        ctx.report(key, "%d call(s) of this class break C32 (TraceSlotTime classifying branch); first: event %d %s"
+                   % (counts[key], idx, json.dumps(ev)), payload={"event_index": idx, "event": ev, "net": net, "count": counts[key]})
+    if not ok:
+        ctx.report("trace/%s" % first.get("ev"), "event %d cannot be consumed by TraceSlotTime at all: %s" % (matched + 1, json.dumps(first)),
+                   payload={"event_index": matched + 1, "event": first})
+    for key, idx in sorted(drift.items()):
+        ctx.notes.append("DRIFT design model (epoch is the quotient / clock is the linear formula) deviates: %s, first at event %d %s"
+                         % (key, idx, json.dumps(events[idx - 1])))
+    ctx.cov["m3_design_drift_classes"] = sorted(drift)
 
-    # 4. design model (Strict, thorough tier): epoch is the quotient, the clock is the linear formula => DRIFT only
-    if ctx.thorough and len(rejected) < 8:
-        drift, _ = validate(ctx, "TraceSlotTimeStrict.cfg", clean, "strict", 3)
-        for key, ev, net in drift:
-            ctx.notes.append("DRIFT design model (Strict) rejects %s: %s" % (key, json.dumps(ev)))
-        ctx.cov["m3_strict_rejections"] = len(drift)
-
-    # 5. binding self-test on a short slice around mainnet's first Byron epoch boundary
+    # binding self-test on the preview network (Shelley only, free of known findings): a corrupted call must be
+    # classified under exactly its own key, a dropped call must stop the run
     if not ctx.violations:
-        head = clean[:400]
-        idx = next(i for i, e in enumerate(head) if e["ev"] == "rel" and i > 250)
-        assert head[idx + 1]["ev"] == "abs" and head[idx + 2]["ev"] == "wall"
-        c1 = [json.loads(json.dumps(e)) for e in head]
-        c1[idx + 1]["slot"] = to_big(big_int(head[idx + 1]["slot"]) + 1)
-        p1 = ctx.path("selftest_abs.ndjson")
-        vlib.write_ndjson(p1, c1)
-        ok1, m1, _, _ = ctx.tlc_trace(SPEC_DIR, "TraceSlotTime", "TraceSlotTime.cfg", p1, count=False)
-        ctx.selftest("corrupt converted-back slot of event %d" % (idx + 2), (not ok1) and m1 == idx + 1)
-        c2 = [json.loads(json.dumps(e)) for e in head]
+        start = next(i for i, e in enumerate(events) if e["ev"] == "net" and e["name"] == "preview")
+        head = [json.loads(json.dumps(e)) for e in events[start:start + 300]]
+        idx = next(i for i, e in enumerate(head) if e["ev"] == "rel" and i > 150)
+        jdx = next(i for i, e in enumerate(head) if e["ev"] == "rel" and i > idx + 20)
+        assert head[idx + 1]["ev"] == "abs" and head[idx + 2]["ev"] == "wall" and head[jdx + 1]["ev"] == "abs"
+        ok0, _, _, cl0, _, _ = validate(ctx, head, "selftest_clean.ndjson")
+        ctx.selftest("preview slice is accepted without any class", ok0 and not cl0, str(cl0))
+        c2 = json.loads(json.dumps(head))
+        c2[idx]["sub"] = to_big(86400)          # = epoch size of preview: just out of range
+        c2[idx + 1]["sub"] = to_big(86400)      # the inverse is still called with the result of "rel"
         c2[idx + 2]["t1"] = to_big(big_int(c2[idx + 2]["t1"]) + 1)
-        p2 = ctx.path("selftest_wall.ndjson")
-        vlib.write_ndjson(p2, c2)
-        ok2, m2, _, _ = ctx.tlc_trace(SPEC_DIR, "TraceSlotTime", "TraceSlotTime.cfg", p2, count=False)
-        ctx.selftest("corrupt wall-clock t1 of event %d" % (idx + 3), (not ok2) and m2 == idx + 2)
+        c2[jdx + 1]["slot"] = to_big(big_int(head[jdx + 1]["slot"]) + 1)
+        ok2, _, _, cl2, _, _ = validate(ctx, c2, "selftest_corrupt.ndjson")
+        ctx.selftest("corrupt sub-slot of event %d, wall-clock t1 of event %d, converted-back slot of event %d"
+                     % (idx + 1, idx + 3, jdx + 2),
+                     ok2 and cl2 == {"rel/preview/shelley": idx + 1, "wall/preview/shelley": idx + 3,
+                                     "roundtrip/preview/shelley": jdx + 2}, str(cl2))
         c3 = [e for i, e in enumerate(head) if i != idx]
-        p3 = ctx.path("selftest_drop.ndjson")
-        vlib.write_ndjson(p3, c3)
-        ok3, m3, _, _ = ctx.tlc_trace(SPEC_DIR, "TraceSlotTime", "TraceSlotTime.cfg", p3, count=False)
+        ok3, m3, _, _, _, _ = validate(ctx, c3, "selftest_drop.ndjson")
         ctx.selftest("drop rel event %d" % (idx + 1), (not ok3) and m3 == idx)
 
     return ctx.finish(
